@@ -17,6 +17,8 @@ Decided structurally:
   C14.components  the component list reflects every defined reactant: list_components visits every element-carrying kind;
                 every run and every unload marks the list stale (UpdateComponents = true) and ListComponents refreshes
                 iff stale and clears the flag
+  C14.overwrite  COPY / range expansion onto an existing number replaces it: every instantiation of Rxn_copy / Rxn_copies stores the
+                copy with an overwriting operation (b[j] = source, or erase + insert), never a bare insert/emplace
 Not decided: (d) number-range arithmetic over all ranges; sequencing semantics over arbitrary histories.
 """
 import json
@@ -189,6 +191,7 @@ def run(P, R, tier):
     cell_rule(P, R, K)
     copy_rules(P, R, K, tab)
     component_rules(P, R, K, tab)
+    overwrite_rule(P, R, K)
 
 
 def writes_store(s):
@@ -521,6 +524,39 @@ def copy_rules(P, R, K, tab):
             R.ok("C14.copy", inst, "Set_n_user_both")
         else:
             R.violation("C14.copy", inst, "Rxn_copy does not assign the target number to the copy (n_user / n_user_end)", file=f["file"], line=f["line"], function=f["q"])
+
+
+def overwrite_rule(P, R, K):
+    """COPY and range expansion replace an existing target number: Rxn_copy / Rxn_copies store the copy with an overwriting
+    operation (map operator[] followed by class assignment, or erase before insert); a non-overwriting insert/emplace keeps the
+    old entry of an existing number (and the next number of a range would then be copied from that stale entry)."""
+    R.rule("C14.overwrite", "Rxn_copy / Rxn_copies overwrite an existing target number (operator[] assignment or erase+insert, never a bare insert/emplace)", minimum=22)
+    n = 0
+    for tag in ("Rxn_copy", "Rxn_copies"):
+        fs = [f for f in P.functions.values() if f["q"].startswith("Utilities::%s<" % tag)]
+        for f in fs:
+            n += 1
+            kind = "+".join(sorted(K.of_type(f["q"])))
+            inst = "%s<%s>" % (tag, kind)
+            calls = list(T.calls(f["body"]))
+            names = [T.callee_q(c) or "" for c in calls]
+            assigns_sub = False
+            for c in calls:
+                if (T.callee_q(c) or "").endswith("::operator=") and c[4]:
+                    lhs = T.strip_casts(c[4][0])
+                    if lhs[0] == "Call" and (T.callee_q(lhs) or "").startswith("std::map<") and (T.callee_q(lhs) or "").endswith("::operator[]"):
+                        assigns_sub = True
+            nonover = [q for q in names if q.startswith("std::map<") and q.split("::")[-1] in ("insert", "emplace", "try_emplace", "emplace_hint")]
+            erases = any(q.startswith("std::map<") and q.endswith("::erase") for q in names)
+            if nonover and not erases:
+                R.violation("C14.overwrite", inst, "the copy is stored with std::map::%s, which keeps an existing entry: copying onto an existing number (COPY, `KIND n-m`, SAVE n-m over "
+                            "defined numbers) silently leaves the old content" % nonover[0].split("::")[-1], file=f["file"], line=f["line"], function=f["q"])
+            elif assigns_sub or (nonover and erases):
+                R.ok("C14.overwrite", inst, "b[j] = source (overwrites)" if assigns_sub else "erase + insert")
+            else:
+                R.violation("C14.overwrite", inst, "no overwriting store of the copy found (expected `b[j] = it->second`)", file=f["file"], line=f["line"], function=f["q"])
+    if n < 22:
+        R.anchor_missing("C14.overwrite", "only %d instantiations of Utilities::Rxn_copy / Rxn_copies found (11 kinds each)" % n)
 
 
 # ------------------------------------------------------------------------------------------ components
